@@ -143,6 +143,7 @@ def main(ctx):
                     for i in range(0, len(cseqs), 60):
                         jobs.append({"kind": "seqs", "cfg": c, "role": role, "seqs": cseqs[i:i + 60],
                                      "tier": tier, "light": True})
+        jobs.append({"kind": "pmceparams", "tier": tier})
         # handshake-coalesced sends and two-direction interleavings
         for c in cfgs:
             if c["autofrag"]:
@@ -157,7 +158,7 @@ def main(ctx):
     ctx.coverage["traces_validated_against_impl"] = int(ctx.counters["evaluations"])
     ctx.coverage["distinct_nontrivial"] = int(ctx.counters["nontrivial"])
     for n in ("op_sequences", "segmentations", "messages_delivered", "compressed_frames",
-              "masked_frames", "unmasked_frames", "fragmented_messages", "coalesce_execs",
+              "masked_frames", "unmasked_frames", "fragmented_messages", "coalesce_execs", "pmce_parameter_execs",
               "duplex_execs", "queued_writes", "streammix_execs", "close_after_queued_sends"):
         ctx.require(n)
 
@@ -554,6 +555,8 @@ def job(a):
         return _job_duplex(a, env, seed)
     if kind == "streammix":
         return _job_streammix(a, env, seed)
+    if kind == "pmceparams":
+        return _job_pmceparams(a, env, seed)
     cfg, role, tier = a["cfg"], a["role"], a["tier"]
     light = a.get("light", False)
     stats = {"op_sequences": 0, "segmentations": 0, "nontrivial": 0, "messages_delivered": 0,
@@ -742,6 +745,75 @@ def _job_duplex(a, env, seed):
                       "messages_delivered": 4 * st["executions"]},
             "samples": [{"kind": "duplex", "cfg": _cfgid(cfg, "both"), "schedules": st["executions"],
                          "deviation_bound": a["bound"], "distinct_outcomes": len(outcomes)}]}
+
+
+PMCE_LAYOUTS = [
+    # (client offer kwargs, server accept kwargs): windows and context takeover that differ per
+    # direction - whichever side compresses, the other inflates with what was negotiated
+    ({"request_max_window_bits": 9}, {}),
+    ({"request_max_window_bits": 12, "request_no_context_takeover": True}, {}),
+    ({"accept_max_window_bits": True}, {"request_max_window_bits": 10}),
+    ({"accept_max_window_bits": True, "request_max_window_bits": 15}, {"request_max_window_bits": 9}),
+    ({"accept_no_context_takeover": True}, {"request_no_context_takeover": True}),
+    ({}, {"window_bits": 11}),
+    ({}, {"no_context_takeover": True, "mem_level": 1}),
+    ({"request_max_window_bits": 9, "accept_max_window_bits": True},
+     {"request_max_window_bits": 9, "request_no_context_takeover": True, "no_context_takeover": True}),
+]
+
+
+def _job_pmceparams(a, env, seed):
+    """messages through a real pair whose permessage-deflate parameters differ per direction (the
+    default negotiation of the other jobs uses 15-bit windows with context takeover both ways): the
+    message set needs back references over more than 2^9..2^12 octets and across messages"""
+    import hashlib
+    from harness import ws
+    viol = []
+    evals = 0
+    block = b"".join(hashlib.sha256(b"c01|pmce|%d|%d" % (seed, i)).digest() for i in range(128))   # 4 KiB
+    msgs = [(block, True), (block, True), ((block * 18)[:70000], True), (b"short text", False),
+            (block[:600] + block[:600], True), (b"", True)]
+    for li, (offer, accept) in enumerate(PMCE_LAYOUTS):
+        for frag in (None, 1000):
+            for chunk in (None, 4099, 1):
+                if chunk == 1 and frag is None:
+                    continue
+                pair = ws.Pair(compress=dict(offer), server_compress=dict(accept)).handshake()
+                if pair.c.proto._perMessageCompress is None or pair.s.proto._perMessageCompress is None:
+                    raise RuntimeError("harness: compression not negotiated for layout %d" % li)
+                use = msgs if chunk != 1 else msgs[:2] + msgs[3:]
+                for conn in (pair.c, pair.s):
+                    for pl, binary in use:
+                        conn.proto.sendMessage(pl, isBinary=binary, fragmentSize=frag)
+                pair.collect()
+                for _ in range(10 ** 7):
+                    if not pair.wire["c2s"] and not pair.wire["s2c"]:
+                        break
+                    for d in ("c2s", "s2c"):
+                        if pair.wire[d]:
+                            pair.deliver(d, chunk)
+                pair.settle()
+                evals += 1
+                want = [(pl, binary) for pl, binary in use]
+                gots = [(bytes(e[1]), e[2]) for e in pair.s.proto.rec if e[0] == "onMessage"]
+                gotc = [(bytes(e[1]), e[2]) for e in pair.c.proto.rec if e[0] == "onMessage"]
+                ok = gots == want and gotc == want and not pair.escapes() and \
+                    pair.c.proto.state == 3 and pair.s.proto.state == 3
+                if not ok and len(viol) < 3:
+                    viol.append({"sig": "C01|delivery|pmce-parameters|%s" % (
+                        "to-server" if gots != want else "to-client"),
+                        "desc": "[fw=%s nvx=%s] offer %r accept %r fragmentSize=%s read chunk=%s: server got %d/%d "
+                                "messages intact, client got %d/%d, states c=%s s=%s, escapes %r" % (
+                                    env.get("fw"), env.get("nvx"), offer, accept, frag, chunk,
+                                    sum(1 for x, y in zip(gots, want) if x == y), len(want),
+                                    sum(1 for x, y in zip(gotc, want) if x == y), len(want),
+                                    pair.c.proto.state, pair.s.proto.state,
+                                    [repr(e)[:120] for e in pair.escapes()[:2]]),
+                        "replay": {"env": {"fw": env.get("fw"), "nvx": str(env.get("nvx"))},
+                                   "func": "props.c01:job", "arg": a}})
+    return {"evals": evals, "viol": viol,
+            "stats": {"pmce_parameter_execs": evals, "nontrivial": evals, "messages_delivered": 12 * evals},
+            "samples": [{"kind": "pmceparams", "layouts": len(PMCE_LAYOUTS), "executions": evals}]}
 
 
 def _job_streammix(a, env, seed):
